@@ -121,7 +121,8 @@ def marshal(
                 if event.path == command_code_path:
                     command_code = event.value
                 if (
-                    buffer_depleted
+                    tpm_type is CommandResponseStream
+                    and buffer_depleted
                     and event.path == Path.from_string(".")
                     and event.value is ...
                 ):
